@@ -1,7 +1,7 @@
 #!/bin/bash
 # usage: seedall.sh [seed ids...]   -- runs every stored seeded change against the check(s) expected to catch it; one line per seed
 cd /verif
-declare -A OVERRIDE=( [C06-1]="C04" [C06-2]="C04" [C05-2]="C20" )
+declare -A OVERRIDE=( [C06-1]="C04" [C06-2]="C04" [C05-2]="C05 C20" )
 ids=${@:-$(ls seeded | grep -E '^C[0-9]+-[0-9]+$')}
 for id in $ids; do
   props=${OVERRIDE[$id]:-${id%%-*}}
